@@ -11,6 +11,9 @@ func classMember(rng *rand.Rand, c *Class, alpha []rune) rune {
 		return alpha[rng.Intn(len(alpha))]
 	}
 	it := c.Items[rng.Intn(len(c.Items))]
+	if it.Cat != "" {
+		return alpha[rng.Intn(len(alpha))]
+	}
 	if it.Short != 0 {
 		switch it.Short {
 		case 'd':
@@ -44,7 +47,9 @@ func sample(rng *rand.Rand, n *Node, alpha []rune, out *[]rune, depth int) {
 	case KShort:
 		c := &Class{Items: []ClassItem{{Short: n.Short}}}
 		*out = append(*out, classMember(rng, c, alpha))
-	case KSeq, KGroup, KCap, KAtomic:
+	case KCat:
+		*out = append(*out, alpha[rng.Intn(len(alpha))])
+	case KSeq, KGroup, KCap, KAtomic, KBalance:
 		for _, s := range n.Subs {
 			sample(rng, s, alpha, out, depth)
 		}
